@@ -24,6 +24,12 @@ open MuduoVerif.LogFile MuduoVerif.Gen.LogFile
 
 /-! ## T1 ties: the generated guards are the documented comparisons -/
 
+/-- the models below are sequential: that is `LogFile`'s behaviour under several threads only because both public
+entry points that touch the file, `append` and `flush`, do all their work under `*mutex_` when the file was created
+thread safe (`AppendFile` writes with `fwrite_unlocked`, so the stdio lock protects nothing).  Extracted from the
+source on every run; the free-running scenario `harness/logfile_mt.cc` turns a broken tie into a failing input. -/
+theorem threadsafe_paths_locked : appendLocks = true ∧ flushLocks = true := by decide
+
 theorem tie_logfile_guards (written rollSize count checkEveryN now lastFlush flushInterval lastRoll thisPeriod startOfPeriod : Int) :
     (rollBySize written rollSize ↔ rollSize < written) ∧
     (checkDue count checkEveryN ↔ checkEveryN ≤ count) ∧ countReset = 0 ∧
